@@ -2,7 +2,8 @@
 //! All strings are lists of code points.  Options are () or (v).
 //! case:   ( mode pattern rec mdc thread treqs )   |   ( 3 chars ) -> cls of those chars only
 //!   mode   1 = construct and encode, 2 = construct only (absurd widths), 5 = switch the process's TZ, then as 1,
-//!          4 = as 1 but in a forked child, after the parent has encoded the pid formatters
+//!          4 = as 1 but in a forked child, after the parent has encoded the pid formatters,
+//!          7 = as 1 into a sink that takes 300 bytes and then fails for good: res = ( "err" ( event* ) ) on Err
 //!   rec    ( level msg target module? file? line? )
 //!   mdc    ( (key value)* )
 //!   thread () unnamed thread | (name)
@@ -34,6 +35,10 @@ struct Cap {
     /// caller's write_all retries) - a signal arriving during the write must not show in the output
     intr: usize,
     calls: usize,
+    /// > 0: the sink takes this many bytes in total (the last accepted write is a short one), then every write
+    /// fails for good (mode 7: a full disk under a pattern that asks for more output than any sink holds)
+    budget: usize,
+    taken: usize,
 }
 impl Cap {
     fn flush_text(&mut self) {
@@ -51,6 +56,15 @@ impl io::Write for Cap {
         self.calls += 1;
         if self.intr > 0 && self.calls % self.intr == 0 {
             return Err(io::Error::new(io::ErrorKind::Interrupted, "EINTR"));
+        }
+        if self.budget > 0 {
+            if self.taken >= self.budget {
+                return Err(io::Error::new(io::ErrorKind::Other, "no space left on device"));
+            }
+            let n = buf.len().min(self.budget - self.taken);
+            self.taken += n;
+            self.cur.extend_from_slice(&buf[..n]);
+            return Ok(n);
         }
         self.cur.extend_from_slice(buf);
         Ok(buf.len())
@@ -144,7 +158,7 @@ impl std::fmt::Display for Reentrant<'_> {
         }
         let ok = std::panic::catch_unwind(|| {
             let enc = PatternEncoder::new("<{m}|{m:>9}|{m:.4}>");
-            let mut cap = Cap { ev: vec![], cur: vec![], intr: 0, calls: 0 };
+            let mut cap = Cap { ev: vec![], cur: vec![], intr: 0, calls: 0, budget: 0, taken: 0 };
             let n = 41;
             let r = enc.encode(
                 &mut cap,
@@ -270,7 +284,7 @@ fn body(case: &Val) -> Val {
         for pat in ["[{m:>40}]", "{({l} {m}):>30.35}|{m:<20}|{m:.50}", "{h({m:>25})}"] {
             let _ = std::panic::catch_unwind(|| {
                 let enc = PatternEncoder::new(pat);
-                let mut cap = Cap { ev: vec![], cur: vec![], intr: 0, calls: 0 };
+                let mut cap = Cap { ev: vec![], cur: vec![], intr: 0, calls: 0, budget: 0, taken: 0 };
                 let _ = enc.encode(
                     &mut cap,
                     &log::Record::builder().level(log::Level::Warn).args(format_args!("x{}y", Failing)).build(),
@@ -291,7 +305,7 @@ fn body(case: &Val) -> Val {
             if mode == 2 {
                 return Val::text("ok");
             }
-            let mut cap = Cap { ev: vec![], cur: vec![], intr, calls: 0 };
+            let mut cap = Cap { ev: vec![], cur: vec![], intr, calls: 0, budget: if mode == 7 { 300 } else { 0 }, taken: 0 };
             let mut go = |args: std::fmt::Arguments| {
                 enc.encode(
                     &mut cap,
@@ -320,6 +334,7 @@ fn body(case: &Val) -> Val {
             cap.flush_text();
             match r {
                 Ok(()) => Val::L(cap.ev),
+                Err(_) if mode == 7 => Val::L(vec![Val::text("err"), Val::L(cap.ev)]),
                 Err(_) => Val::err(1),
             }
         }));
@@ -374,7 +389,7 @@ fn body(case: &Val) -> Val {
 fn forked(case: &Val) -> Val {
     {
         let warm = PatternEncoder::new("{P} {pid} {I} {thread_id} {i} {tid} {T} {d(%Y)}");
-        let mut cap = Cap { ev: vec![], cur: vec![], intr: 0, calls: 0 };
+        let mut cap = Cap { ev: vec![], cur: vec![], intr: 0, calls: 0, budget: 0, taken: 0 };
         let _ = warm.encode(
             &mut cap,
             &log::Record::builder().level(log::Level::Info).args(format_args!("warm")).build(),
